@@ -601,9 +601,13 @@ class Lib:
         if name in ("nx.has_path", "networkx.has_path"):
             g, u, v = args[0], z3_of(args[1]), z3_of(args[2])
             ex.oblige(st, z3.And(N_(g, u), N_(g, v)), "call.nx.has_path.nodes-present")
+            th = self.theory(ex)
             if not g.fields["@directed"]:
-                raise Unsupported("has_path on undirected graph")
-            return Scalar(self.theory(ex).path(g.fields["@E"])(u, v))
+                # undirected graphs keep E symmetric (wf_graph), so the reflexive-transitive closure of E is connectivity; ghost lemma
+                # (induction instance, a theorem of the least fix-point): for symmetric E, Path_E is symmetric
+                P = th.path(g.fields["@E"])
+                st.assume(th.induct_rel(g.fields["@E"], lambda x, y: P(y, x)))
+            return Scalar(th.path(g.fields["@E"])(u, v))
         if name in ("nx.is_directed_acyclic_graph", "networkx.is_directed_acyclic_graph"):
             g = args[0]
             if not g.fields["@directed"]:
